@@ -264,6 +264,10 @@ func r14_3(r *Report, p *Program) {
 				switch {
 				case !has(true, "IgnoreStatusChanges") || has(true, "IgnoreStatusChanges == nil"):
 					return false, "update dropped without ignoreStatusChanges being set and true"
+				case !comp && !(has(true, ".APIVersion == call(unstructured.Unstructured.GetAPIVersion)("+old) || has(true, "call(unstructured.Unstructured.GetAPIVersion)("+old, ".APIVersion", " == ")):
+					return false, "update dropped on the strength of a resource rule whose apiVersion was not found equal to the parent's: another rule's ignoreStatusChanges decides"
+				case !comp && !(has(true, ".Kind == call(unstructured.Unstructured.GetKind)("+old) || has(true, "call(unstructured.Unstructured.GetKind)("+old, ".Kind", " == ")):
+					return false, "update dropped on the strength of a resource rule whose kind was not found equal to the parent's: another rule's ignoreStatusChanges decides"
 				case !has(true, "GetGeneration)("+old, "GetGeneration)("+cur, " == "):
 					return false, "update dropped without comparing old and new generation"
 				case !has(true, "reflect.DeepEqual", "GetLabels)("+old, "GetLabels)("+cur):
@@ -449,39 +453,11 @@ func r14_3(r *Report, p *Program) {
 				}
 			}
 			r.Check(rule, FK(f)+"[nil-only-for-a-reason]", p.Pos(f.Pos()), okC, "nil ⇒ group/kind mismatch ∨ not found ∨ UID differs ∨ (¬finalizer ∧ ¬matches)", whyC)
-			// namespace of the lookup
+			// namespace of the lookup: the child's namespace across 'Namespaced', the empty one across '!Namespaced'
 			okNs := false
 			for _, cs := range callsTo(f, false, "common.GetObject") {
-				ns := E(cs.Common().Args[1])
-				okNs = strings.HasPrefix(ns, "phi(") && strings.Contains(ns, `""`) && strings.Contains(ns, "p1")
-				// polarity: the child's namespace is what arrives across 'Namespaced', the empty one across '!Namespaced'
-				if ph, isPhi := cs.Common().Args[1].(*ssa.Phi); isPhi && okNs {
-					for i, e := range ph.Edges {
-						pred := ph.Block().Preds[i]
-						_, isConst := e.(*ssa.Const)
-						// the edge pred→phi block, or the edge into pred when pred is the 'then' block
-						polar := 0
-						check := func(b *ssa.BasicBlock, to *ssa.BasicBlock) {
-							for j, sc := range b.Succs {
-								if sc == to {
-									if l, has := engine.EdgeLit(b, j); has && strings.HasSuffix(l.Atom, ".Namespaced") {
-										polar = -1
-										if l.Pos {
-											polar = 1
-										}
-									}
-								}
-							}
-						}
-						check(pred, ph.Block())
-						if polar == 0 && len(pred.Preds) == 1 {
-							check(pred.Preds[0], pred)
-						}
-						if isConst && polar != -1 || !isConst && polar != 1 {
-							okNs = false
-						}
-					}
-				}
+				t, e, sel := selectOf(cs.Common().Args[1], func(a string) bool { return strings.HasSuffix(a, ".Namespaced") })
+				okNs = sel && t == "p1" && e == `""`
 			}
 			r.Check(rule, FK(f)+"[lookup-namespace]", p.Pos(f.Pos()), okNs, "namespaced parent looked up in the child's namespace, cluster-scoped one without", "parent lookup namespace is not (child namespace if parent namespaced, else empty)")
 		}
